@@ -15,7 +15,8 @@ Record Inv (s : state) : Prop := mkInv {
   inv_fst : NoDup (map fst (pools s));
   inv_snd : NoDup (map snd (pools s));
   inv_rng : forall cp n, In (cp, n) (pools s) -> 1 <= n < seq s /\ cp <> std;
-  inv_seq : 1 <= seq s
+  inv_seq : 1 <= seq s;
+  inv_cp : forall cp n, In (cp, n) (pools s) -> cp <= 1000   (* a counterparty denom is never an LPT denom *)
 }.
 
 (** who signs a message; pool escrow addresses have no key, so they never sign *)
@@ -66,7 +67,7 @@ Qed.
 (** ** invariant preservation *)
 Lemma Inv_same s s' f g : Inv s -> moves s s' f g -> same_reg s s' -> Inv s'.
 Proof.
-  intros I (_ & _ & (_ & P) & K) (R1 & R2). destruct I as [I1 I2 I3 I4 I5 I6 I7].
+  intros I (_ & _ & (_ & P) & K) (R1 & R2). destruct I as [I1 I2 I3 I4 I5 I6 I7 I8].
   constructor; try rewrite P; try rewrite R1; try rewrite R2; auto.
 Qed.
 
@@ -90,10 +91,11 @@ Proof.
     destruct SE as [n _ _ _ M R | n1 n2 s1 mid _ _ _ _ _ _ M1 R1 M2 R2].
     + eapply Inv_same; eassumption.
     + eapply Inv_same; [eapply Inv_same|..]; eassumption.
-  - destruct (exec_add_spec _ _ _ _ _ _ _ _ _ E) as (_ & _ & _ & Hstd & _ & mint & _ & _ & AE).
+  - destruct (exec_add_spec _ _ _ _ _ _ _ _ _ E) as (_ & _ & _ & Hstd & Hnl & mint & _ & _ & AE).
+    unfold is_lpt in Hnl. apply Z.ltb_ge in Hnl.
     destruct AE as [tax Hp _ _ _ _ M Hps Hsq | n Hp _ _ _ M R | n dep Hp _ _ _ _ _ _ _ _ M R];
       [|eapply Inv_same; eassumption|eapply Inv_same; eassumption].
-    destruct M as (_ & _ & (_ & P) & K). destruct I as [I1 I2 I3 I4 I5 I6 I7].
+    destruct M as (_ & _ & (_ & P) & K). destruct I as [I1 I2 I3 I4 I5 I6 I7 I8].
     constructor; try rewrite P; try rewrite Hps; try rewrite Hsq; auto; try lia.
     + rewrite map_app. simpl. apply NoDup_app_one; [assumption|]. apply get_None_not_in_fst. exact Hp.
     + rewrite map_app. simpl. apply NoDup_app_one; [assumption|].
@@ -102,6 +104,9 @@ Proof.
     + intros c n' Hin. apply in_app_or in Hin. destruct Hin as [Hin|[Hin|[]]].
       * destruct (I6 _ _ Hin). split; [lia|assumption].
       * inversion Hin; subst. split; [lia|assumption].
+    + intros c n' Hin. apply in_app_or in Hin. destruct Hin as [Hin|[Hin|[]]].
+      * exact (I8 _ _ Hin).
+      * inversion Hin; subst. exact Hnl.
   - destruct (exec_remove_spec _ _ _ _ _ _ _ _ _ E) as (cp & a1 & a2 & _ & _ & _ & _ & _ & _ & _ & _ & _ & _ & M & R).
     eapply Inv_same; eassumption.
   - destruct (exec_add_uni_spec _ _ _ _ _ _ _ _ _ E) as (n & mint & _ & _ & _ & _ & _ & _ & _ & _ & _ & M & R).
@@ -109,7 +114,7 @@ Proof.
   - destruct (exec_remove_uni_spec _ _ _ _ _ _ _ _ _ E) as (n & target & _ & _ & _ & _ & _ & _ & _ & _ & M & R).
     eapply Inv_same; eassumption.
   - destruct (exec_send_spec _ _ _ _ _ _ _ E) as (_ & _ & _ & M & R). eapply Inv_same; eassumption.
-  - inversion E; subst. destruct I as [I1 I2 I3 I4 I5 I6 I7]. constructor; auto.
+  - inversion E; subst. destruct I as [I1 I2 I3 I4 I5 I6 I7 I8]. constructor; auto.
 Qed.
 
 Lemma Inv_run ms : forall s, Inv s -> Inv (run s ms).
